@@ -264,7 +264,10 @@ def eval_cases(draw, tier="quick"):
     kinds = ("deterministic",) if det else ("stochastic", "deterministic", "sixths")
     n_sim = draw(st.integers(1, 20))
     cap = draw(st.one_of(st.integers(0, 12), st.integers(0, 12), st.sampled_from([60, 400, 900])))
-    if draw(st.integers(0, 24)) == 0:
+    if draw(st.integers(0, 79)) == 0:
+        # very long roll-outs (beyond any block size an implementation may process returns in), few of them
+        n_sim, cap = draw(st.integers(1, 2)), draw(st.sampled_from([2049, 2600]))
+    elif draw(st.integers(0, 39)) == 0:
         # many simulations (beyond any batch size an implementation may use internally), short roll-outs
         n_sim, cap = draw(st.sampled_from([1000, 1001, 1500, 2048])), draw(st.integers(1, 5))
     return {"mdp": spec, "policy": draw(policy_specs(spec, kinds=kinds)), "kind": draw(st.sampled_from(["functional", "tabular"])),
